@@ -302,6 +302,29 @@ static double pickValue(const Field &f, bool lowBound, const std::string &rel) {
   return outward ? b + step : b - (f.integer ? 1.0 : std::min(step, span * 0.3));
 }
 
+// A circuit every placement stage handles and visibly changes: cells of one row height piled on one spot, rows with
+// plenty of room, two nets.  Varies with the attempt number.
+static Circuit pileCircuit(int k) {
+  int n = 5 + k % 4;  // the last cell is fixed and anchors both nets (no floating netlist)
+  Circuit c(n);
+  std::vector<int> w(n), h(n, 10), x(n, 13 + k % 7), y(n, 3 + k % 5);
+  std::vector<bool> fixed(n, false);
+  for (int i = 0; i < n; ++i) w[i] = 2 + (i + k) % 4;
+  fixed[n - 1] = true;
+  w[n - 1] = 4;
+  x[n - 1] = 44;
+  y[n - 1] = 10;
+  c.setCellWidth(w);
+  c.setCellHeight(h);
+  c.setCellX(x);
+  c.setCellY(y);
+  c.setCellIsFixed(fixed);
+  c.setupRows(Rectangle(0, 60, 0, 30), 10);
+  c.addNet({0, 1, 2, n - 1}, {0, 0, 0, 1}, {0, 0, 0, 1});
+  c.addNet({1, 2, 3, n - 1}, {1, 1, 1, 2}, {2, 2, 2, 3});
+  return c;
+}
+
 static void invalidRun(int run, long long attempt, const Circuit &base) {
   // attempt index space: [0,49) efforts -16..32; [49,59) random 32-bit efforts; then fields x {lo,hi} x {outside,at,inside};
   // then setters with wrong lengths; then nets.
@@ -377,17 +400,50 @@ static void invalidRun(int run, long long attempt, const Circuit &base) {
       outcome = "error";
     }
     e.set("outcome", outcome).set("value1000", (long long)std::llround(v * 1000.0));
-    // a placement call with these parameters: rejected before any work iff the check rejects them
-    bool threw = false;
-    int cbs = 0;
-    PlacementCallback cb = [&](PlacementStep) { ++cbs; };
-    try {
-      c.legalize(p, cb);
-    } catch (std::exception &) {
-      threw = true;
+    // every placement entry point with these parameters: rejected before any work iff the check rejects them.  The calls run
+    // on a circuit on which the same call with valid parameters provably succeeds and moves cells (control), so that
+    // "refused" and "unchanged" cannot hold by accident (an infeasible or already-placed circuit).
+    Circuit pile = pileCircuit(run);
+    Value pileBefore = vp::circuitToJson(pile);
+    ColoquinteParameters good(3, 1);
+    good.global.maxNbSteps = 2;
+    bool allRejected = true, allSame = true;
+    Value stages = Value::array();
+    static const char *stageNames[] = {"global", "legalize", "detailed"};
+    for (int st = 0; st < 3 && outcome == "error"; ++st) {
+      auto invoke = [&](Circuit &cc, const ColoquinteParameters &pp, const PlacementCallback &cb) {
+        if (st == 0) cc.placeGlobal(pp, cb);
+        else if (st == 1) cc.legalize(pp, cb);
+        else cc.placeDetailed(pp, cb);
+      };
+      Circuit ctl = pile;
+      int ctlCbs = 0;
+      bool ctlOk = true;
+      try {
+        invoke(ctl, good, [&](PlacementStep) { ++ctlCbs; });
+      } catch (std::exception &) {
+        ctlOk = false;
+      }
+      bool ctlMoved = vp::circuitToJson(ctl).str() != pileBefore.str();
+      Circuit sub = pile;
+      bool threw = false;
+      int cbs = 0;
+      try {
+        invoke(sub, p, [&](PlacementStep) { ++cbs; });
+      } catch (std::exception &) {
+        threw = true;
+      }
+      bool same = vp::circuitToJson(sub).str() == pileBefore.str();
+      Value sv = Value::object();
+      sv.set("stage", stageNames[st]).set("controlOk", ctlOk && ctlCbs > 0).set("controlMoved", ctlMoved);
+      sv.set("rejected", threw && cbs == 0).set("same", same).set("callbacks", cbs);
+      stages.push(sv);
+      allRejected = allRejected && threw && cbs == 0;
+      allSame = allSame && same;
     }
-    e.set("rejectedCall", threw && cbs == 0);
-    e.set("sameAfter", vp::circuitToJson(c).str() == before.str());
+    e.set("stages", stages);
+    e.set("rejectedCall", allRejected);
+    e.set("sameAfter", allSame);
     vt::emit(e);
     if (outcome == "error") allSetters(run, c, "A");
     return;
